@@ -304,6 +304,25 @@ CLAIMED = {
             'Trusts the sign-arithmetic lemmas of sa/sign_abs.py; assumes f deterministic and tol > 0.  '
             'Seeded change C29-1 (sort key of polyroots sensitive to rounding noise) is not detected.',
             'DESIGN.md section 4 (C29)'),
+    'C37': ('Y-backend-siblings',
+            'static analysis: discovery and classification of every BACKEND-dependent binding, signature '
+            'comparison of in-repository alternatives, equality of Engine-B rounding summaries and of '
+            'special-value/guard features for the kernels written once per backend, dispatch-completeness '
+            'and like-named-binding rules, table-length / threshold agreement rules for the python-only '
+            'lookup tables',
+            'Clause (the only view of the gmpy branch available: gmpy2 is not installed and its C routines '
+            'are not source): every name bound differently per backend is enumerated and must be classified; '
+            'alternatives in source agree on signature; python_mpf_mul/gmpy_mpf_mul and the _int pair have '
+            'the same rounding contract (one rounding at the requested precision in the caller\'s mode of the '
+            'exact product, same special constants, normaliser reached only with a non-zero mantissa); '
+            'dispatched names are bound on every branch to the alternative written for that backend and '
+            'derived tables are built through the dispatching names; the tie masks and bit-count tables '
+            'the C normaliser never consults agree with each other and with the thresholds guarding them.  '
+            'Bit-identical results are NOT decided.',
+            'Assumes the C routines implement the contract named in the table row.  The exact integer '
+            'helpers of the python backend (isqrt_python, numeral_python, python_bitcount) are value-level: '
+            'seeded changes C37-2 and C37-3 are not detected.',
+            'DESIGN.md section 4 (C37)'),
 }
 
 NA_REASONS = {
